@@ -141,12 +141,16 @@ def check_case(ctx, case):
             cands.append((f"Derivative({er})", lambda: sm.Derivative(S.build(s), compute_early=early)))
     idn = [n for n in names if n.isidentifier() and not keyword.iskeyword(n)]
     if len(idn) == len(names):
-        pd = {n: rng.choice([1, 2.5, -3, 0.1, 1e-7, 7.0]) for n in names}
+        pd = {n: rng.choice([1, 2.5, -3, 0.1, 1e-7, 7.0, 1e20, 1e16, 1.5e300, 5e-324, -0.0, 10 ** 25, 3e40, 1e100, 123456789.123456789, -1e-300, 2.0]) for n in names}
         if rng.random() < 0.3:
             pd["extra"] = 4
-        pr = M.call(lambda: repr(sm.Point(**pd)), numeric=False)
-        if pr.kind == "obj":
-            cands.append((f"LocatedDifferential({er}, {pr.value})", lambda: sm.LocatedDifferential(S.build(s), sm.Point(**pd))))
+        from .. import refmodel as R
+        pl = pd if not R.NORMAL.evaluate(s, pd).oos else {n: rng.choice([1, 2.5, -3, 0.1, 7.0]) for n in pd}
+        if R.NORMAL.evaluate(s, pl).oos:
+            pl = None
+        pr = M.call(lambda: repr(sm.Point(**pl)), numeric=False) if pl is not None else None
+        if pr is not None and pr.kind == "obj":
+            cands.append((f"LocatedDifferential({er}, {pr.value})", lambda: sm.LocatedDifferential(S.build(s), sm.Point(**pl))))
         pt = sm.Point(**pd)
         roundtrip(ctx, pt, f"point {S.show_point(pd)}", None, is_expr=False)
         expect = "Point(" + ", ".join(f"{k}={v!r}" for k, v in pd.items()) + ")"
